@@ -16,6 +16,7 @@ from datetime import timedelta
 from typing import Any
 
 from sim.env import Sim
+from sim.loop import SimDeadlock
 
 ID = "C10"
 REAL = ["Actor.start / _run_loop / _delay_if_restart", "BackgroundService.cancel / stop / wait / __await__ / __aenter__ / __aexit__",
@@ -33,7 +34,7 @@ THOROUGH_RUNS = 400_000
 EXPECT_PROBES = ["stop_during_restart_delay", "stop_during_run", "stop_before_start", "stop_after_completion",
                  "restart_limit_reached", "base_exception_outcome", "cancel_converted_to_exception", "extra_task_added",
                  "run_utils_used", "start_while_running", "concurrent_stops", "extra_task_failed",
-                 "actors_with_equal_names", "aexit_after_body_raised"]
+                 "actors_with_equal_names", "aexit_after_body_raised", "waiter_gave_up"]
 
 
 class ProbeBase(BaseException):
@@ -51,6 +52,10 @@ class Rec:
         self.cancel_requested_since_enter = False
         self.generation = 0                           # incremented by every effective start()
         self.unspecified = False                      # a cancellation was converted into an Exception
+        self.stop_requested_gen = -1                  # generation for which the controller asked for stop/cancel
+        self.judging = True                           # False once the scenario is over (teardown cancels everything)
+        self.seen: dict[int, Any] = {}                # tasks of the current start ever seen in the service's task set
+        self.collected: set[int] = set()              # ... whose outcome a returned stop()/wait()/run() has collected
 
 
 def make_probe_class() -> Any:
@@ -118,6 +123,12 @@ def make_probe_class() -> Any:
                 inv["how"] = how
                 sim.ev("exit", rec.name, k, how)
                 sim.model_states.add((how, k > 0))
+                if how in ("cancelled", "converted") and rec.judging and rec.stop_requested_gen != inv["gen"]:
+                    # nobody called stop()/cancel()/left the async-with block for this start of the actor: something
+                    # else (e.g. a caller that gave up waiting) took the run logic down
+                    sim.soft_violation("restart_after_failure", {"what": "run logic cancelled although nobody stopped or cancelled the actor"},
+                                       f"actor {rec.name}: invocation {k} was cancelled at t={sim.now_us} us without a "
+                                       f"stop()/cancel() request")
 
     return Probe
 
@@ -188,10 +199,21 @@ def scenario(sim: Sim) -> None:
                 rec.generation += 1
                 rec.starts.append(sim.evno)
                 extra_tasks[rec.name] = []
+                rec.seen = {id(t): t for t in set.__iter__(o._tasks)}
+                rec.collected = set()
 
         async def do_stop(i: int, kind: str) -> None:
             o, rec = objs[i], recs[i]
             at_call = list(set.__iter__(o._tasks))
+            for t in at_call:
+                rec.seen[id(t)] = t
+            # tasks of this start that already ended and whose outcome no returned stop()/wait()/run() has collected
+            # yet: they are the service's tasks all the same, whether or not it still lists them
+            died_unnoticed = [t for t in rec.seen.values() if id(t) not in rec.collected and t.done() and t not in at_call]
+            if any(not p_["done"] and rec.name in p_["actor"].split(",") for p_ in pending_ops):
+                died_unnoticed = []     # a wait()/run()/stop() already in flight may have collected them: unknown
+            if died_unnoticed:
+                sim.probe("stop_after_unnoticed_death")
             op = {"kind": kind, "actor": rec.name, "t_call": sim.now_us, "ev_call": sim.evno, "done": False,
                   "gen": rec.generation, "unspecified": rec.unspecified}
             pending_ops.append(op)
@@ -206,6 +228,8 @@ def scenario(sim: Sim) -> None:
             if sum(1 for p in pending_ops if p["actor"] == rec.name and p["kind"] == "stop" and not p["done"]) > 1:
                 sim.probe("concurrent_stops")
             ctl_interference[rec.name] = sim.evno
+            if kind in ("stop", "aexit", "aexit_exc"):
+                rec.stop_requested_gen = rec.generation
             raised: BaseException | None = None
             try:
                 if kind == "stop":
@@ -226,6 +250,9 @@ def scenario(sim: Sim) -> None:
                 raised = e
             op["done"] = True
             op["t_ret"] = sim.now_us
+            # (whatever it was called for, a call that returns has drained the service's task set: every task of the
+            # actor that is done by now has been collected by it or by an earlier call)
+            rec.collected.update(k_ for k_, t in rec.seen.items() if t.done())
             sim.ev(kind + "_returned", rec.name, type(raised).__name__ if raised else "None")
             # ---- I4: returns only when every task present at call time is done
             notdone = [t for t in at_call if not t.done()]
@@ -235,7 +262,7 @@ def scenario(sim: Sim) -> None:
                               f"{len(at_call)} tasks (present at call time) not finished")
             if kind in ("stop", "aexit", "aexit_exc"):
                 want = []
-                for t in at_call:
+                for t in at_call + died_unnoticed:
                     if t.cancelled():
                         continue
                     e = t.exception()
@@ -263,10 +290,14 @@ def scenario(sim: Sim) -> None:
                     recs[i].generation += 1
                     recs[i].starts.append(sim.evno)
                     extra_tasks[recs[i].name] = []
+                    recs[i].seen = {}
+                    recs[i].collected = set()
             op = {"kind": "run", "actor": ",".join(recs[i].name for i in idx), "t_call": sim.now_us, "done": False}
             gens = {i: recs[i].generation for i in idx}
             pending_ops.append(op)
             await run_actors(*[objs[i] for i in idx])
+            for i in idx:
+                recs[i].collected.update(k for k, t in recs[i].seen.items() if t.done())
             op["done"] = True
             op["t_ret"] = sim.now_us
             sim.ev("run_returned", op["actor"])
@@ -281,6 +312,8 @@ def scenario(sim: Sim) -> None:
 
         def on_idle() -> None:
             for i, rec in enumerate(recs):
+                for t in set.__iter__(objs[i]._tasks):
+                    rec.seen[id(t)] = t
                 sim.model_states.add((objs[i].is_running, in_restart_delay(rec), rec.invocations[-1]["how"] if rec.invocations else None))
                 _check_restarts(sim, rec, delay_us, limit, slack, ctl_interference[rec.name], objs[i])
             for op in pending_ops:
@@ -295,6 +328,8 @@ def scenario(sim: Sim) -> None:
 
         sim.loop.idle_hooks.append(on_idle)
         ctl_tasks: list[Any] = []
+        ctl_kinds: list[str] = []
+        last_kind = ["other"]
         nops = ch.int_between("nops", 3, sim.scale(14, 30))
         for _ in range(nops):
             i = ch.draw("op_actor", nact)
@@ -311,13 +346,15 @@ def scenario(sim: Sim) -> None:
                 await asyncio.sleep(0)
             else:
                 await asyncio.sleep(ch.choice("gap_us", [1_000, 50_000, 500_000, 2_000_000, 5_000_000, 0]) / 1e6)
-            ok = ch.weighted("op", [6, 4, 2, 2, 1, 1, 2, 1, 1])
+            ok = ch.weighted("op", [6, 4, 2, 2, 1, 1, 2, 1, 1, 1])
+            last_kind[0] = {3: "wait", 4: "await"}.get(ok, "other")
             if ok == 0:
                 effective_start(i)
             elif ok == 1:
                 ctl_tasks.append(sim.spawn(do_stop(i, "stop")))
             elif ok == 2:
                 ctl_interference[rec.name] = sim.evno
+                rec.stop_requested_gen = rec.generation
                 sim.ev("cancel", rec.name)
                 o.cancel("cancel by controller")
                 if rec.active or in_restart_delay(rec):
@@ -352,15 +389,26 @@ def scenario(sim: Sim) -> None:
                     o._tasks.add(t)
                     extra_tasks[rec.name].append(t)
                     sim.ev("extra_task", rec.name, fails)
+            elif ok == 9:
+                # a caller that was waiting for the actor gives up (its wait()/await is cancelled, as by a timeout):
+                # that is the caller's business and must leave the actor alone
+                waiting = [t for t, p in zip(ctl_tasks, ctl_kinds) if p in ("wait", "await") and not t.done()]
+                if waiting:
+                    waiting[ch.draw("which_waiter", len(waiting))].cancel()
+                    sim.probe("waiter_gave_up")
+                    sim.ev("waiter_cancelled", rec.name)
             else:
                 idx = sorted({i, ch.draw("run_other", nact)})
                 ctl_tasks.append(sim.spawn(do_run(idx)))
+            while len(ctl_kinds) < len(ctl_tasks):
+                ctl_kinds.append(last_kind[0])
         await asyncio.sleep(ch.choice("tail_s", [0.5, 3.0, 8.0]))
         # calm down: release everything and stop all actors; every pending stop must now return
         for o in objs:
             o.release.set()
         sim.loop.idle_hooks.remove(on_idle)
         for i, o in enumerate(objs):
+            recs[i].stop_requested_gen = recs[i].generation
             if not recs[i].unspecified:
                 try:
                     await asyncio.wait_for(o.stop(), timeout=30)
@@ -375,12 +423,23 @@ def scenario(sim: Sim) -> None:
                     r.unspecified for r in recs if r.name in op["actor"].split(",")):
                 sim.violation("stop_returns", {"what": "stop() still pending after everything finished", "op": op["kind"]},
                               f"{op['kind']}({op['actor']}) called at {op['t_call']} us never returned")
+        for r in recs:
+            r.judging = False
         for t in ctl_tasks:
             t.cancel()
         for o in objs:
             o.cancel()
 
-    sim.run(main())
+    try:
+        sim.run(main())
+    except SimDeadlock:
+        # nothing can run any more although the scenario has not finished: some stop()/wait()/run() call of the
+        # controller never returns
+        stuck = [f"{p['kind']}({p['actor']})" for p in pending_ops if not p["done"]]
+        for r in recs:
+            r.judging = False
+        sim.violation("stop_returns", {"what": "deadlock: a pending call never returns"},
+                      f"nothing runnable, no timers; calls still pending: {stuck}")
 
 
 def _check_restarts(sim: Sim, rec: Rec, delay_us: int, limit: int | None, slack: int, interfered_ev: int, obj: Any) -> None:
